@@ -869,7 +869,23 @@ def _vec_index(vm, cal, args):
     items = seq_of(vm, r)
     idx = args[1]
     if isinstance(idx, Adt):
-        raise Unmodelled("range indexing")
+        # slice[a..b] by shared reference: a read-only view (copy of the element values)
+        if cal.trait != 'Index':
+            raise Unmodelled("mutable range indexing")
+        n = len(items)
+        lo, hi = 0, n
+        if idx.ty == 'RangeFrom':
+            lo = vm.concretize_index(idx.fields[0], n + 1)
+        elif idx.ty == 'RangeTo':
+            hi = vm.concretize_index(idx.fields[0], n + 1)
+        elif idx.ty == 'Range':
+            lo = vm.concretize_index(idx.fields[0], n + 1)
+            hi = vm.concretize_index(idx.fields[1], n + 1)
+        elif idx.ty != 'RangeFull':
+            raise Unmodelled("range indexing with " + idx.ty)
+        if lo > hi:
+            raise Panic("slice index starts after its end")
+        return Ref(Cell(VecV(tuple(items[lo:hi])), "subslice"))
     i = vm.concretize_index(idx, len(items))
     return Ref(r.cell, r.path + (('idx', i),))
 
